@@ -455,3 +455,427 @@ Proof.
         { discriminate. }
         { apply nulfree_app; [apply nulfree_cons; auto|]. apply nulfree_app; auto. }
 Qed.
+
+(* ================================================================== 4. send_envelope, send_data, main *)
+(** net_writen() on a line that fits: one write, the parts and CRLF *)
+Lemma parts_loop_short ps : forall msg out, length msg + length (concat ps) <= 510 ->
+  parts_loop msg out ps = Ok (msg ++ concat ps, out).
+Proof.
+  induction ps as [|p ps IH]; intros msg out H; cbn [parts_loop concat].
+  - rewrite app_nil_r. reflexivity.
+  - cbn [concat] in H. rewrite app_length in H. unfold part_step.
+    unfold NW_MSG, NW_FLUSH_MARGIN.
+    destruct (Nat.ltb_spec (512 - 2) (length msg + length p)); [lia|].
+    destruct (Nat.ltb_spec 512 (length msg + length p)); [lia|].
+    cbn [bind]. rewrite IH by (rewrite app_length; lia). rewrite app_assoc. reflexivity.
+Qed.
+
+Lemma net_writen_cmd_short parts w : parts <> [] -> length (concat (map cstr parts)) <= 510 ->
+  net_writen_cmd parts w = Ok (net_put (concat (map cstr parts) ++ CRLF) w).
+Proof.
+  intros Hne H. unfold net_writen_cmd. destruct parts as [|s0 ps]; [congruence|].
+  cbn [map concat] in *. rewrite app_length in H. unfold net_writen. unfold NW_MSG.
+  destruct (Nat.ltb_spec 512 (length (cstr s0))); [lia|].
+  rewrite parts_loop_short by lia. cbn [bind].
+  destruct (Nat.ltb_spec 512 (length (cstr s0 ++ concat (map cstr ps)) + 2)); [rewrite app_length in *; lia|].
+  cbn. rewrite app_nil_r. reflexivity.
+Qed.
+
+Definition short_line (l : bytes) : Prop := length l <= 512.   (* including CRLF *)
+
+Lemma rcpt_cmd_short r w : short_line (rcpt_line r) ->
+  net_writen_cmd [QR_CMD_RCPT; r; QR_CMD_RCPT_END] w = Ok (net_put (rcpt_line r) w).
+Proof.
+  intros H. unfold short_line, rcpt_line in H. rewrite !app_length in H. cbn in H.
+  rewrite net_writen_cmd_short; [|discriminate|].
+  - do 2 f_equal. unfold rcpt_line. cbn [map concat]. rewrite app_nil_r.
+    change (cstr QR_CMD_RCPT) with s_RCPT. change (cstr QR_CMD_RCPT_END) with s_GT.
+    rewrite <- !app_assoc. reflexivity.
+  - cbn [map concat]. change (cstr QR_CMD_RCPT) with s_RCPT. change (cstr QR_CMD_RCPT_END) with s_GT.
+    rewrite !app_length. cbn. lia.
+Qed.
+
+(** the letters of the RCPT TO phase by the reply grammar *)
+Definition rcpt_letter (c : nat) : N := cr_letter (Some QR_ST_RCPT) c.
+Definition stat_of (acc : bool) : Z := if acc then 0%Z else 1%Z.
+
+Inductive rphase :=
+| RPDone (ls : list N) (acc : bool) (rest : script)   (* all replies whole: letters, a recipient accepted?, rest *)
+| RPExit (ls : list N) (d : nat).                    (* exit while reading reply number d (0-based) *)
+
+Fixpoint ref_rcpts (k : nat) (acc : bool) (scr : script) : rphase :=
+  match k with
+  | O => RPDone [] acc scr
+  | S k' =>
+      match take_reply scr with
+      | RComplete c _ rest =>
+          match ref_rcpts k' (acc || is_2xx c) rest with
+          | RPDone ls a r => RPDone (rcpt_letter c :: ls) a r
+          | RPExit ls d => RPExit (rcpt_letter c :: ls) (S d)
+          end
+      | RBrokenFirst => RPExit [L_Z] 0
+      | RBrokenCont c => RPExit (if is_2xx c then [rcpt_letter c; L_Z] else [rcpt_letter c]) 0
+      end
+  end.
+
+Lemma st_rcpt_ok : st_ok (Some QR_ST_RCPT). Proof. cbn. repeat split; discriminate. Qed.
+Lemma st_mail_ok : st_ok (Some QR_ST_MAIL). Proof. cbn. repeat split; discriminate. Qed.
+Lemma st_dot_ok : st_ok (Some QR_ST_DOT). Proof. cbn. repeat split; discriminate. Qed.
+
+Lemma rcpt_silent c : cr_silent (Some QR_ST_RCPT) c = false.
+Proof. unfold cr_silent. cbn. apply andb_false_r. Qed.
+Lemma rcpt_early c : cr_early QR_MASK_RCPT c = is_2xx c.
+Proof. unfold cr_early. cbn. apply andb_true_r. Qed.
+
+Lemma ok_below c : 200 <= c -> (Z.of_nat c <? QR_RCPT_OK_BELOW)%Z = is_2xx c.
+Proof. intros H. unfold QR_RCPT_OK_BELOW, is_2xx. lia. Qed.
+
+Lemma stat_step acc c : 200 <= c ->
+  (if (Z.of_nat c <? QR_RCPT_OK_BELOW)%Z then 0%Z else stat_of acc) = stat_of (acc || is_2xx c).
+Proof. intros H. rewrite ok_below by exact H. unfold stat_of. destruct acc, (is_2xx c); reflexivity. Qed.
+
+Lemma take_reply_code_range scr c m rest : take_reply scr = RComplete c m rest -> 200 <= c <= 599.
+Proof.
+  unfold take_reply. destruct scr as [|[l| | | | |] scr]; try discriminate.
+  destruct (line_code l) as [c'|] eqn:E; [|discriminate].
+  apply line_code_range in E. destruct (is_cont l); [destruct (skip_cont scr)|]; intros H; inversion H; subst; exact E.
+Qed.
+
+(** one RCPT TO reply through checkreply("rsh", NULL, 8) *)
+Lemma rcpt_reply_sem scr w : w_sock w = true ->
+  match take_reply scr with
+  | RComplete c _ rest =>
+      exists w', checkreply (Some QR_ST_RCPT) None QR_MASK_RCPT scr w = Ret (Z.of_nat c) rest w' /\ w_sock w' = true
+                 /\ w_net w' = w_net w /\ appended w w' [rcpt_letter c]
+  | RBrokenFirst =>
+      exists w', checkreply (Some QR_ST_RCPT) None QR_MASK_RCPT scr w = Exit 0 w' /\ net_exit w w' /\ appended w w' [L_Z]
+  | RBrokenCont c =>
+      exists w', checkreply (Some QR_ST_RCPT) None QR_MASK_RCPT scr w = Exit 0 w' /\ net_exit w w'
+                 /\ appended w w' (if is_2xx c then [rcpt_letter c; L_Z] else [rcpt_letter c])
+  end.
+Proof.
+  intros Hs. pose proof (checkreply_sem (Some QR_ST_RCPT) None QR_MASK_RCPT scr w Hs st_rcpt_ok) as H.
+  destruct (take_reply scr) as [c m rest| |c]; auto.
+  - rewrite rcpt_silent in H. exact H.
+  - rewrite rcpt_silent, rcpt_early in H. exact H.
+Qed.
+
+(** the reply loop of the PIPELINING branch *)
+Lemma rcpt_replies_sem k : forall acc scr w, w_sock w = true ->
+  match ref_rcpts k acc scr with
+  | RPDone ls a rest =>
+      exists w', rcpt_replies k (stat_of acc) scr w = Ret (stat_of a) rest w' /\ w_sock w' = true
+                 /\ w_net w' = w_net w /\ appended w w' ls
+  | RPExit ls d =>
+      exists w', rcpt_replies k (stat_of acc) scr w = Exit 0 w' /\ net_exit w w' /\ appended w w' ls
+  end.
+Proof.
+  induction k as [|k IH]; intros acc scr w Hs; cbn [ref_rcpts rcpt_replies].
+  - exists w. repeat split; auto using appended_refl.
+  - pose proof (rcpt_reply_sem scr w Hs) as H1.
+    destruct (take_reply scr) as [c m rest| |c] eqn:ET.
+    + destruct H1 as (w1 & E1 & K1 & N1 & A1). rewrite E1.
+      rewrite stat_step by (apply take_reply_code_range in ET; lia).
+      specialize (IH (acc || is_2xx c) rest w1 K1).
+      destruct (ref_rcpts k (acc || is_2xx c) rest) as [ls a r|ls d].
+      * destruct IH as (w' & E & K' & N' & A'). exists w'. rewrite E. repeat split; auto; [congruence|].
+        apply (appended_trans w w1 w' [rcpt_letter c] ls); auto.
+      * destruct IH as (w' & E & NE & A'). exists w'. rewrite E. repeat split; auto.
+        { unfold net_exit in *. rewrite <- N1. exact NE. }
+        apply (appended_trans w w1 w' [rcpt_letter c] ls); auto.
+    + destruct H1 as (w' & E & NE & A). exists w'. rewrite E. auto.
+    + destruct H1 as (w' & E & NE & A). exists w'. rewrite E. auto.
+Qed.
+
+(** the one-by-one loop: every RCPT TO is written just before its reply is read *)
+Lemma rcpt_each_sem rs : forall acc scr w, w_sock w = true -> Forall (fun r => short_line (rcpt_line r)) rs ->
+  match ref_rcpts (length rs) acc scr with
+  | RPDone ls a rest =>
+      exists w', rcpt_each rs (stat_of acc) scr w = Ret (stat_of a) rest w' /\ w_sock w' = true
+                 /\ w_net w' = w_net w ++ concat (map rcpt_line rs) /\ appended w w' ls
+  | RPExit ls d =>
+      exists w' q, rcpt_each rs (stat_of acc) scr w = Exit 0 w' /\ (q = [] \/ q = s_QUIT) /\ d < length rs
+                   /\ w_net w' = w_net w ++ concat (map rcpt_line (firstn (S d) rs)) ++ q /\ appended w w' ls
+  end.
+Proof.
+  induction rs as [|r rs IH]; intros acc scr w Hs Hsh; cbn [length ref_rcpts rcpt_each].
+  - exists w. cbn. rewrite app_nil_r. repeat split; auto using appended_refl.
+  - inversion Hsh as [|? ? Hr Hrs]; subst. rewrite rcpt_cmd_short by exact Hr.
+    set (w0 := net_put (rcpt_line r) w).
+    assert (K0 : w_sock w0 = true) by exact Hs.
+    pose proof (rcpt_reply_sem scr w0 K0) as H1.
+    assert (Aw : forall w' ls, appended w0 w' ls -> appended w w' ls) by (intros w' ls H; exact H).
+    destruct (take_reply scr) as [c m rest| |c] eqn:ET.
+    + destruct H1 as (w1 & E1 & K1 & N1 & A1). rewrite E1.
+      rewrite stat_step by (apply take_reply_code_range in ET; lia).
+      specialize (IH (acc || is_2xx c) rest w1 K1 Hrs).
+      destruct (ref_rcpts (length rs) (acc || is_2xx c) rest) as [ls a r'|ls d].
+      * destruct IH as (w' & E & K' & N' & A'). exists w'. rewrite E. repeat split; auto.
+        { rewrite N', N1. subst w0. cbn [net_put w_net map concat]. rewrite <- app_assoc. reflexivity. }
+        apply (appended_trans w w1 w' [rcpt_letter c] ls); auto.
+      * destruct IH as (w' & q & E & Hq & Hd & N' & A'). exists w', q. rewrite E. repeat split; auto; [lia| |].
+        { rewrite N', N1. subst w0. cbn [net_put w_net map concat firstn]. rewrite <- !app_assoc. reflexivity. }
+        apply (appended_trans w w1 w' [rcpt_letter c] ls); auto.
+    + destruct H1 as (w' & E & NE & A). rewrite E.
+      destruct NE as [NE|NE]; [exists w', []|exists w', s_QUIT]; repeat split; auto; try lia;
+        rewrite NE; subst w0; cbn [net_put w_net map concat firstn]; rewrite ?app_nil_r, <- ?app_assoc; reflexivity.
+    + destruct H1 as (w' & E & NE & A). rewrite E.
+      destruct NE as [NE|NE]; [exists w', []|exists w', s_QUIT]; repeat split; auto; try lia;
+        rewrite NE; subst w0; cbn [net_put w_net map concat firstn]; rewrite ?app_nil_r, <- ?app_assoc; reflexivity.
+Qed.
+
+(** the PIPELINING branch writes every RCPT TO, four to a write *)
+Lemma pipe_rcpts_sem rs : forall idx n cur w, idx + length rs = n ->
+  let w' := pipe_rcpts idx n rs cur w in
+  w_sock w' = w_sock w /\ w_status w' = w_status w /\ w_linein w' = w_linein w /\
+  w_net w' = w_net w ++ match rs with
+                        | [] => []
+                        | r :: rs' => concat (map cstr cur) ++ cstr r ++ s_GT ++ CRLF ++ concat (map rcpt_line rs')
+                        end.
+Proof.
+  induction rs as [|r rs IH]; intros idx n cur w Hn; cbn [pipe_rcpts].
+  - rewrite app_nil_r. auto.
+  - cbn [length] in Hn.
+    destruct (Nat.eqb idx (n - 1) || Nat.eqb (Nat.modulo idx QR_PIPE_MOD) QR_PIPE_REM) eqn:Efl.
+    + specialize (IH (S idx) n [QR_CMD_RCPT] (net_write_multiline ((cur ++ [r]) ++ [QR_CMD_PIPE_END]) w) ltac:(lia)).
+      cbv zeta in IH. destruct IH as (K & S1 & L1 & N1). repeat split; auto. rewrite N1.
+      unfold net_write_multiline, net_put. cbn [w_net]. rewrite !map_app, !concat_app. cbn [map concat].
+      change (cstr QR_CMD_PIPE_END) with (s_GT ++ CRLF). change (cstr QR_CMD_RCPT) with s_RCPT.
+      rewrite !app_nil_r, <- !app_assoc. do 4 f_equal.
+      destruct rs as [|r2 rs]; [reflexivity|]. cbn [map concat]. unfold rcpt_line. rewrite <- !app_assoc. reflexivity.
+    + destruct rs as [|r2 rs].
+      { exfalso. apply orb_false_iff in Efl. destruct Efl as [E1 _]. apply Nat.eqb_neq in E1. cbn in Hn. lia. }
+      specialize (IH (S idx) n ((cur ++ [r]) ++ [QR_CMD_PIPE_NEXT]) w ltac:(lia)).
+      cbv zeta in IH. destruct IH as (K & S1 & L1 & N1). repeat split; auto. rewrite N1.
+      rewrite !map_app, !concat_app. cbn [map concat].
+      change (cstr QR_CMD_PIPE_NEXT) with (s_GT ++ CRLF ++ s_RCPT).
+      rewrite !app_nil_r, <- !app_assoc. do 3 f_equal. unfold rcpt_line. rewrite <- !app_assoc. reflexivity.
+Qed.
+
+(** the MAIL FROM line of this input *)
+Definition actual_params (i : input) : bytes :=
+  (if has (i_ext i) QR_ESMTP_SIZE then s_SIZE ++ cstr (i_sizestr i) else [])
+  ++ (if has (i_ext i) QR_ESMTP_8BITMIME
+      then (if negb (N.eqb (N.land (i_recodeflag i) 1) 0) then s_BODY8 else s_BODY7) else []).
+
+Lemma mail_parts_bytes i : concat (map cstr (mail_parts i)) = s_MAIL ++ cstr (i_sender i) ++ s_GT ++ actual_params i.
+Proof.
+  unfold mail_parts, actual_params. rewrite !map_app, !concat_app. cbn [map concat].
+  change (cstr QR_CMD_MAIL) with s_MAIL.
+  destruct (has (i_ext i) QR_ESMTP_SIZE); destruct (has (i_ext i) QR_ESMTP_8BITMIME);
+    try destruct (negb (N.eqb (N.land (i_recodeflag i) 1) 0)); cbn [map concat];
+    change (cstr QR_CMD_SIZE) with (s_GT ++ s_SIZE); change (cstr QR_CMD_GT) with s_GT;
+    change (cstr QR_CMD_BODY8) with s_BODY8; change (cstr QR_CMD_BODY7) with s_BODY7;
+    rewrite ?app_nil_r, <- ?app_assoc; reflexivity.
+Qed.
+
+Lemma actual_params_in i : In (actual_params i) (mail_params i).
+Proof.
+  unfold actual_params, mail_params.
+  destruct (has (i_ext i) QR_ESMTP_SIZE); destruct (has (i_ext i) QR_ESMTP_8BITMIME);
+    try destruct (negb (N.eqb (N.land (i_recodeflag i) 1) 0)); rewrite ?app_nil_r; cbn [app In]; tauto.
+Qed.
+
+Lemma mail_parts_ne i : mail_parts i <> [].
+Proof. unfold mail_parts. discriminate. Qed.
+
+Definition mail_letter (c : nat) : N := cr_letter (Some QR_ST_MAIL) c.
+Definition dot_letter (c : nat) : N := cr_letter (Some QR_ST_DOT) c.
+
+Lemma mail_silent c : cr_silent (Some QR_ST_MAIL) c = is_2xx c.
+Proof. unfold cr_silent. cbn. apply andb_true_r. Qed.
+Lemma mail_early c : cr_early QR_MASK_MAIL c = false.
+Proof. unfold cr_early. cbn. apply andb_false_r. Qed.
+Lemma dot_silent c : cr_silent (Some QR_ST_DOT) c = false.
+Proof. unfold cr_silent. cbn. apply andb_false_r. Qed.
+Lemma dot_early c : cr_early QR_MASK_DOT c = false.
+Proof. unfold cr_early. cbn. apply andb_false_r. Qed.
+
+Lemma fail_from c : 200 <= c -> (QR_FAIL_FROM <=? Z.of_nat c)%Z = negb (is_2xx c).
+Proof. intros H. unfold QR_FAIL_FROM, is_2xx. lia. Qed.
+
+(** MAIL FROM reply through checkreply(" ZD", mailerrmsg, 6) *)
+Lemma mail_reply_sem rhost scr w : w_sock w = true ->
+  match take_reply scr with
+  | RComplete c _ rest =>
+      exists w', checkreply (Some QR_ST_MAIL) (Some (mailerrmsg rhost)) QR_MASK_MAIL scr w = Ret (Z.of_nat c) rest w'
+                 /\ w_sock w' = true /\ w_net w' = w_net w /\ appended w w' (if is_2xx c then [] else [mail_letter c])
+  | RBrokenFirst =>
+      exists w', checkreply (Some QR_ST_MAIL) (Some (mailerrmsg rhost)) QR_MASK_MAIL scr w = Exit 0 w'
+                 /\ net_exit w w' /\ appended w w' [L_Z]
+  | RBrokenCont c =>
+      exists w', checkreply (Some QR_ST_MAIL) (Some (mailerrmsg rhost)) QR_MASK_MAIL scr w = Exit 0 w'
+                 /\ net_exit w w' /\ appended w w' (if is_2xx c then [L_Z] else [mail_letter c])
+  end.
+Proof.
+  intros Hs. pose proof (checkreply_sem (Some QR_ST_MAIL) (Some (mailerrmsg rhost)) QR_MASK_MAIL scr w Hs st_mail_ok) as H.
+  destruct (take_reply scr) as [c m rest| |c]; auto.
+  - rewrite mail_silent in H. exact H.
+  - rewrite mail_silent, mail_early in H. exact H.
+Qed.
+
+(** draining the RCPT TO replies after MAIL FROM was refused *)
+Lemma drain_replies_sem k : forall scr w, w_sock w = true ->
+  if whole_replies k scr
+  then exists w' rest, drain_replies k scr w = Ret tt rest w' /\ w_sock w' = true /\ w_net w' = w_net w /\ appended w w' []
+  else exists w', drain_replies k scr w = Exit 0 w' /\ net_exit w w' /\ appended w w' [L_Z].
+Proof.
+  induction k as [|k IH]; intros scr w Hs; cbn [whole_replies drain_replies].
+  - exists w, scr. auto using appended_refl.
+  - pose proof (checkreply_sem None None 0 scr w Hs I) as H. cbn [cr_silent] in H.
+    destruct (take_reply scr) as [c m rest| |c].
+    + destruct H as (w1 & E1 & K1 & N1 & A1). rewrite E1. specialize (IH rest w1 K1).
+      destruct (whole_replies k rest).
+      * destruct IH as (w' & rest' & E & K' & N' & A'). exists w', rest'. rewrite E. repeat split; auto; [congruence|].
+        apply (appended_trans w w1 w' [] []); auto.
+      * destruct IH as (w' & E & NE & A'). exists w'. rewrite E. repeat split; auto.
+        { unfold net_exit in *. rewrite <- N1. exact NE. }
+        apply (appended_trans w w1 w' [] [L_Z]); auto.
+    + destruct H as (w' & E & NE & A). exists w'. rewrite E. auto.
+    + destruct H as (w' & E & NE & A). exists w'. rewrite E. auto.
+Qed.
+
+(** the envelope phase by the reply grammar: report letters, RCPT TO commands sent when they
+    go out one by one, and the rest of the script if DATA follows *)
+Definition pipel (i : input) : bool := has (i_ext i) QR_ESMTP_PIPELINING.
+Definition ref_env (i : input) : list N * nat * option script :=
+  let n := length (i_rcpts i) in
+  match take_reply (i_script i) with
+  | RBrokenFirst => ([L_Z], 0, None)
+  | RBrokenCont c => ((if is_2xx c then [L_Z] else [mail_letter c]), 0, None)
+  | RComplete c _ rest =>
+      if negb (is_2xx c)
+      then ([mail_letter c] ++ (if pipel i && negb (whole_replies n rest) then [L_Z] else []), 0, None)
+      else match ref_rcpts n false rest with
+           | RPExit ls d => (ls, S d, None)
+           | RPDone ls a rest' => (ls, n, if a then Some rest' else None)
+           end
+  end.
+
+Definition env_sent (i : input) (j : nat) : bytes :=
+  mail_line i (actual_params i) ++ concat (map rcpt_line (firstn (if pipel i then length (i_rcpts i) else j) (i_rcpts i))).
+
+(** how the envelope phase ends when DATA does not follow: exit inside, or return non-zero
+    and main() shuts down cleanly *)
+Definition env_stops (i : input) (w w' : world) : Prop :=
+  send_envelope i (i_script i) w = Exit 0 w'
+  \/ exists z rest w1, send_envelope i (i_script i) w = Ret z rest w1 /\ z <> 0%Z /\ exit_with (A:=unit) (shutdown_clean w1) = Exit 0 w'.
+
+Definition env_post (i : input) (w : world) : Prop :=
+  let '(ls, j, k) := ref_env i in
+  match k with
+  | Some rest =>
+      exists w', send_envelope i (i_script i) w = Ret 0%Z rest w' /\ w_sock w' = true
+                 /\ w_net w' = w_net w ++ env_sent i (length (i_rcpts i)) /\ appended w w' ls
+  | None =>
+      exists w' q, env_stops i w w' /\ (q = [] \/ q = s_QUIT) /\ w_net w' = w_net w ++ env_sent i j ++ q /\ appended w w' ls
+  end.
+
+Lemma clean_after w1 : w_sock w1 = true ->
+  exists w', exit_with (A:=unit) (shutdown_clean w1) = Exit 0 w' /\ w_net w' = w_net w1 ++ s_QUIT /\ w_status w' = w_status w1.
+Proof.
+  intros H. unfold exit_with, shutdown_clean. rewrite H. cbn [fst snd]. eexists. split; [reflexivity|]. cbn. auto.
+Qed.
+
+Lemma firstn_len {A} (l : list A) : firstn (length l) l = l.
+Proof. apply firstn_all. Qed.
+
+Lemma send_envelope_nopipe i w : w_sock w = true -> pipel i = false ->
+  short_line (mail_line i (actual_params i)) -> Forall (fun r => short_line (rcpt_line r)) (i_rcpts i) ->
+  env_post i w.
+Proof.
+  intros Hs Hp Hm Hr. unfold env_post, ref_env, env_sent, env_stops, send_envelope. fold (pipel i). rewrite Hp.
+  cbn [andb].
+  assert (Hmail : net_writen_cmd (mail_parts i) w = Ok (net_put (mail_line i (actual_params i)) w)).
+  { rewrite net_writen_cmd_short.
+    - rewrite mail_parts_bytes. unfold mail_line. rewrite <- !app_assoc. reflexivity.
+    - apply mail_parts_ne.
+    - rewrite mail_parts_bytes. unfold short_line, mail_line in Hm. rewrite !app_length in *. cbn in *. lia. }
+  rewrite Hmail. set (w1 := net_put (mail_line i (actual_params i)) w).
+  assert (K1 : w_sock w1 = true) by exact Hs.
+  pose proof (mail_reply_sem (i_rhost i) (i_script i) w1 K1) as HM.
+  destruct (take_reply (i_script i)) as [c m rest| |c] eqn:ET.
+  - destruct HM as (w2 & E2 & K2 & N2 & A2). rewrite E2.
+    rewrite fail_from by (apply take_reply_code_range in ET; lia).
+    destruct (is_2xx c) eqn:E2xx; cbn [negb].
+    + pose proof (rcpt_each_sem (i_rcpts i) false rest w2 K2 Hr) as HR. cbn [stat_of] in HR.
+      destruct (ref_rcpts (length (i_rcpts i)) false rest) as [ls a rest'|ls d].
+      * destruct HR as (w3 & E3 & K3 & N3 & A3). destruct a; cbn [stat_of] in E3.
+        { exists w3. rewrite E3, firstn_len. repeat split; auto.
+          - rewrite N3, N2. subst w1. cbn [net_put w_net]. rewrite <- app_assoc. reflexivity.
+          - apply (appended_trans w w2 w3 [] ls); auto. }
+        { destruct (clean_after w3 K3) as (w' & EC & NC & SC). exists w', s_QUIT. repeat split; auto.
+          - right. exists 1%Z, rest', w3. repeat split; auto. discriminate.
+          - rewrite NC, N3, N2, firstn_len. subst w1. cbn [net_put w_net]. rewrite <- !app_assoc. reflexivity.
+          - destruct (appended_trans w w2 w3 [] ls A2 A3) as (reps & H1 & H2 & H3). exists reps. rewrite SC. auto. }
+      * destruct HR as (w3 & q & E3 & Hq & Hd & N3 & A3). exists w3, q. repeat split; auto.
+        { rewrite N3, N2. subst w1. cbn [net_put w_net]. rewrite <- !app_assoc. reflexivity. }
+        apply (appended_trans w w2 w3 [] ls); auto.
+    + destruct (clean_after w2 K2) as (w' & EC & NC & SC). exists w', s_QUIT. repeat split; auto.
+      * right. exists 1%Z, rest, w2. repeat split; auto. discriminate.
+      * rewrite NC, N2. subst w1. cbn [net_put w_net firstn map concat]. rewrite app_nil_r, <- !app_assoc. reflexivity.
+      * rewrite app_nil_r. destruct A2 as (reps & H1 & H2 & H3). exists reps. rewrite SC. auto.
+  - destruct HM as (w2 & E2 & NE & A2). rewrite E2.
+    destruct NE as [NE|NE]; [exists w2, []|exists w2, s_QUIT]; repeat split; auto;
+      rewrite NE; subst w1; cbn [net_put w_net firstn map concat]; rewrite ?app_nil_r, <- ?app_assoc; reflexivity.
+  - destruct HM as (w2 & E2 & NE & A2). rewrite E2.
+    destruct NE as [NE|NE]; [exists w2, []|exists w2, s_QUIT]; repeat split; auto;
+      rewrite NE; subst w1; cbn [net_put w_net firstn map concat]; rewrite ?app_nil_r, <- ?app_assoc; reflexivity.
+Qed.
+
+Lemma send_envelope_pipe i w : w_sock w = true -> pipel i = true -> i_rcpts i <> [] -> env_post i w.
+Proof.
+  intros Hs Hp Hne. unfold env_post, ref_env, env_sent, env_stops, send_envelope. fold (pipel i). rewrite Hp.
+  cbn [andb]. rewrite firstn_len.
+  destruct (i_rcpts i) as [|r0 rs] eqn:ER; [congruence|]. cbn [nth tl]. clear Hne.
+  set (n := length (r0 :: rs)).
+  set (w1 := net_write_multiline (mail_parts i ++ [QR_CMD_PIPE_FIRST; r0; QR_CMD_PIPE_END]) w).
+  set (w2 := pipe_rcpts 1 n rs [QR_CMD_RCPT] w1).
+  assert (H2 : w_sock w2 = true /\ w_status w2 = w_status w
+               /\ w_net w2 = w_net w ++ mail_line i (actual_params i) ++ concat (map rcpt_line (r0 :: rs))).
+  { destruct (pipe_rcpts_sem rs 1 n [QR_CMD_RCPT] w1 eq_refl) as (K & S1 & L1 & N1). fold w2 in K, S1, L1, N1.
+    split; [rewrite K; exact Hs|]. split; [rewrite S1; reflexivity|]. rewrite N1.
+    subst w1. unfold net_write_multiline, net_put. cbn [w_net]. rewrite map_app, concat_app, mail_parts_bytes.
+    cbn [map concat]. change (cstr QR_CMD_PIPE_FIRST) with (CRLF ++ s_RCPT). change (cstr QR_CMD_PIPE_END) with (s_GT ++ CRLF).
+    change (cstr QR_CMD_RCPT) with s_RCPT. unfold mail_line, rcpt_line. rewrite !app_nil_r, <- !app_assoc.
+    do 9 f_equal. destruct rs as [|r2 rs]; [reflexivity|]. cbn [map concat]. unfold rcpt_line.
+    rewrite <- !app_assoc. reflexivity. }
+  destruct H2 as (K2 & S2 & N2).
+  assert (Aw : forall w' ls, appended w2 w' ls -> appended w w' ls).
+  { intros w' ls (reps & H1 & H3 & H4). exists reps. rewrite H1, S2. auto. }
+  pose proof (mail_reply_sem (i_rhost i) (i_script i) w2 K2) as HM.
+  destruct (take_reply (i_script i)) as [c m rest| |c] eqn:ET.
+  - destruct HM as (w3 & E3 & K3 & N3 & A3). rewrite E3.
+    rewrite fail_from by (apply take_reply_code_range in ET; lia).
+    destruct (is_2xx c) eqn:E2xx; cbn [negb].
+    + pose proof (rcpt_replies_sem n false rest w3 K3) as HR. cbn [stat_of] in HR.
+      destruct (ref_rcpts n false rest) as [ls a rest'|ls d].
+      * destruct HR as (w4 & E4 & K4 & N4 & A4). rewrite E4. destruct a; cbn [stat_of].
+        { exists w4. repeat split; auto; [congruence|]. apply Aw, (appended_trans w2 w3 w4 [] ls); auto. }
+        { destruct (clean_after w4 K4) as (w' & EC & NC & SC). exists w', s_QUIT. repeat split; auto.
+          - right. exists 1%Z, rest', w4. repeat split; auto. discriminate.
+          - rewrite NC, N4, N3, N2, <- !app_assoc. reflexivity.
+          - apply Aw. destruct (appended_trans w2 w3 w4 [] ls A3 A4) as (reps & H1 & H3 & H4). exists reps. rewrite SC. auto. }
+      * destruct HR as (w4 & E4 & NE & A4). rewrite E4.
+        assert (A : appended w w4 ls) by (apply Aw, (appended_trans w2 w3 w4 [] ls); auto).
+        destruct NE as [NE|NE]; [exists w4, []|exists w4, s_QUIT]; repeat split; auto;
+          rewrite NE, N3, N2, ?app_nil_r, <- ?app_assoc; reflexivity.
+    + pose proof (drain_replies_sem n rest w3 K3) as HD.
+      destruct (whole_replies n rest); cbn [negb app].
+      * destruct HD as (w4 & rest' & E4 & K4 & N4 & A4). rewrite E4.
+        destruct (clean_after w4 K4) as (w' & EC & NC & SC). exists w', s_QUIT. repeat split; auto.
+        { right. exists 1%Z, rest', w4. repeat split; auto. discriminate. }
+        { rewrite NC, N4, N3, N2, <- !app_assoc. reflexivity. }
+        { apply Aw. destruct (appended_trans w2 w3 w4 [mail_letter c] [] A3 A4) as (reps & H1 & H3 & H4).
+          exists reps. rewrite SC. auto. }
+      * destruct HD as (w4 & E4 & NE & A4). rewrite E4.
+        assert (A : appended w w4 [mail_letter c; L_Z]) by (apply Aw, (appended_trans w2 w3 w4 [mail_letter c] [L_Z]); auto).
+        destruct NE as [NE|NE]; [exists w4, []|exists w4, s_QUIT]; repeat split; auto;
+          rewrite NE, N3, N2, ?app_nil_r, <- ?app_assoc; reflexivity.
+  - destruct HM as (w3 & E3 & NE & A3). rewrite E3.
+    destruct NE as [NE|NE]; [exists w3, []|exists w3, s_QUIT]; repeat split; auto;
+      rewrite NE, N2, ?app_nil_r, <- ?app_assoc; reflexivity.
+  - destruct HM as (w3 & E3 & NE & A3). rewrite E3.
+    destruct NE as [NE|NE]; [exists w3, []|exists w3, s_QUIT]; repeat split; auto;
+      rewrite NE, N2, ?app_nil_r, <- ?app_assoc; reflexivity.
+Qed.
